@@ -456,7 +456,7 @@ pub fn test(r: &RawSyms, ev: &mut Ev, opts: &ModelOpts) -> Result<(), Violation>
 pub fn run(ctx: &Ctx) -> Result<Ev, String> {
     let opts = ModelOpts { devices: vec![] };
     let shards = 32usize;
-    let per = (if ctx.thorough { 500_000 } else { 30_000 } / shards) as u32;
+    let per = (if ctx.thorough { 1_500_000 } else { 120_000 } / shards) as u32;
     let seed = ctx.seed;
     let total = par::run_shards("C10", shards, |s| par::prop_shard("C10", seed, s, per, &raw_syms(), |c, ev| test(c, ev, &opts)));
     let inconsistent: u64 = total.classes.iter().filter(|(k, _)| k.starts_with("harness-inconsistent")).map(|(_, v)| *v).sum();
